@@ -363,6 +363,68 @@ fn run_stream(alpha: &[Elt], seq: &[usize], bytewise: bool, cuts: Option<&[usize
     Ok(Outcome { viol, chunks, responses: resps.len() as u64 })
 }
 
+type Content = Vec<(Vec<u8>, Vec<u8>, u32, u32)>;
+
+fn content(d: &[crate::sut::DumpItem]) -> Content {
+    let mut v: Content = d.iter().map(|i| (i.key.clone(), i.value.clone(), i.flags, i.ttl)).collect();
+    v.sort();
+    v
+}
+
+/// The store after the prelude and the first `upto` requests of the stream, each run to completion.
+fn content_after(alpha: &[Elt], seq: &[usize]) -> Result<Content, String> {
+    let w = net::NetWorld::new(NetCfg::default())?;
+    let mut c = w.connect()?;
+    let _ = c.step(&w, &Req::store(op::SET, b"k", b"5", 1, 0, 0).bytes());
+    c.close(&w);
+    let mut c = w.connect()?;
+    let _ = c.step(&w, &Req::bare(op::NOOP).opaque(1).bytes());
+    for (i, e) in seq.iter().enumerate() {
+        let _ = c.step(&w, &alpha[*e].req(0x5000 + i as u32 * 0x11).bytes());
+    }
+    Ok(content(&w.dump()))
+}
+
+/// The client that pipelines `<a> quit|quitq <b>` (or `quit|quitq <b>`) on an established connection
+/// and resets it at once, before the server has run: the server still finds every byte readable, but
+/// every write and the shutdown of its socket fail.  Whatever fails, nothing received after quit or
+/// quitq is executed: the store ends as after the prelude, or as after `<a>`.
+fn run_reset(alpha: &[Elt], seq: &[usize], allowed: &[&Content]) -> Result<Outcome, String> {
+    let w = net::NetWorld::new(NetCfg::default())?;
+    let mut c = w.connect()?;
+    let _ = c.step(&w, &Req::store(op::SET, b"k", b"5", 1, 0, 0).bytes());
+    c.close(&w);
+    let mut c = w.connect()?;
+    c.step(&w, &Req::bare(op::NOOP).opaque(1).bytes())?;
+    if wire::split_responses(&c.got).0.len() != 1 {
+        return Err("reset scenario: the connection was not established".into());
+    }
+    let mut bytes = vec![];
+    for (i, e) in seq.iter().enumerate() {
+        bytes.extend(alpha[*e].req(0x5000 + i as u32 * 0x11).bytes());
+    }
+    c.send(&w, &bytes)?;
+    c.abort(&w);
+    w.settle();
+    let have = content(&w.dump());
+    let names: Vec<String> = seq.iter().map(|e| alpha[*e].name()).collect();
+    let viol = if allowed.iter().any(|a| **a == have) {
+        None
+    } else {
+        let closer = seq.iter().map(|e| &alpha[*e]).find(|e| matches!(e, Elt::Quit | Elt::QuitQ)).map(|e| e.opname()).unwrap_or_default();
+        Some((
+            format!("effects-after-reset|{}", closer),
+            format!(
+                "stream [{}] (one segment on an established connection, then the client's RST at once): the store ends as {:?}, which is neither the store before the stream nor the store after the requests in front of {} - something received after it was executed",
+                names.join(" "),
+                have.iter().map(|(k, v, f, _)| format!("{}={}/{:#x}", wire::show(k), wire::show(v), f)).collect::<Vec<_>>(),
+                closer
+            ),
+        ))
+    };
+    Ok(Outcome { viol, chunks: 1, responses: 0 })
+}
+
 pub fn check(tier: Tier, threads: usize) -> CheckOutcome {
     let t0 = Instant::now();
     let alpha = alphabet();
@@ -443,6 +505,50 @@ pub fn check(tier: Tier, threads: usize) -> CheckOutcome {
     let mut found: BTreeMap<String, Violation> = BTreeMap::new();
     let mut mach = None;
     let (mut chunks, mut responses, mut runs) = (0u64, 0u64, 0u64);
+    // the client that resets the connection right behind `... quit|quitq <b>`
+    {
+        let singles: Vec<Vec<usize>> = (0..n).map(|a| vec![a]).collect();
+        let after_one = par_map(&singles, threads, |_, sq| content_after(&alpha, sq));
+        let base = content_after(&alpha, &[]);
+        let mut rs: Vec<Vec<usize>> = vec![];
+        for mid in [quit_i, quitq_i] {
+            for b in 0..n {
+                rs.push(vec![mid, b]);
+                for a in 0..n {
+                    rs.push(vec![a, mid, b]);
+                }
+            }
+        }
+        match (&base, after_one.iter().find_map(|r| r.as_ref().err())) {
+            (Ok(base), None) => {
+                let res = par_map(&rs, threads, |_, sq| {
+                    let mut allowed = vec![base];
+                    if sq.len() == 3 {
+                        allowed.push(after_one[sq[0]].as_ref().unwrap());
+                    }
+                    run_reset(&alpha, sq, &allowed)
+                });
+                for (sq, r) in rs.iter().zip(res.iter()) {
+                    match r {
+                        Err(e) => mach = Some(e.clone()),
+                        Ok(o) => {
+                            runs += 1;
+                            chunks += o.chunks;
+                            if let Some((sig, what)) = &o.viol {
+                                found.entry(sig.clone()).or_insert(Violation {
+                                    signature: sig.clone(),
+                                    what: what.clone(),
+                                    replay: json!({"engine": "c12-reset", "stream": sq.iter().map(|e| alpha[*e].name()).collect::<Vec<_>>(), "indices": sq}),
+                                });
+                            }
+                        }
+                    }
+                }
+            }
+            (Err(e), _) => mach = Some(e.clone()),
+            (_, Some(e)) => mach = Some(e.clone()),
+        }
+    }
     for (sq, r) in streams.iter().zip(results.iter()) {
         match r {
             Err(e) => mach = Some(e.clone()),
@@ -490,7 +596,7 @@ pub fn check(tier: Tier, threads: usize) -> CheckOutcome {
             "alphabet": alpha.iter().map(|e| e.name()).collect::<Vec<_>>(),
             "samples": samples,
             "exhaustive": true,
-            "rule": "every stream of 1..2 requests (thorough: 3) over the alphabet of all opcodes 0x00-0x24 (hit/miss, success/error operands, loud and quiet, unimplemented, undefined) plus every stream with quit/quitq in the middle, each sent in one segment, byte-at-a-time, and in one segment followed at once by the client's FIN (thorough: every single cut of 2-request streams) over real loopback TCP; responses matched to requests by opaque in order and validated by the sequential specification; final store compared with the specification state",
+            "rule": "every stream of 1..2 requests (thorough: 3) over the alphabet of all opcodes 0x00-0x24 (hit/miss, success/error operands, loud and quiet, unimplemented, undefined) plus every stream with quit/quitq in the middle, each sent in one segment, byte-at-a-time, and in one segment followed at once by the client's FIN (thorough: every single cut of 2-request streams) over real loopback TCP; responses matched to requests by opaque in order and validated by the sequential specification; final store compared with the specification state; plus every stream [<a>] quit|quitq <b> sent on an established connection that the client resets at once (the server reads every byte, its writes and its shutdown fail): the store must end as before the stream or as after <a>",
         }),
         assumptions: vec!["tokio paused-clock quiescence; loopback delivery before the send syscall returns".into()],
         violations: found.into_values().collect(),
@@ -503,6 +609,17 @@ pub fn replay(v: &serde_json::Value) -> Result<Option<String>, String> {
     let alpha = alphabet();
     let sq: Vec<usize> = v["indices"].as_array().map(|a| a.iter().filter_map(|x| x.as_u64().map(|y| y as usize)).collect()).unwrap_or_default();
     let mut out = None;
+    if v["engine"].as_str() == Some("c12-reset") {
+        let base = content_after(&alpha, &[])?;
+        let one = content_after(&alpha, &sq[..1])?;
+        let allowed: Vec<&Content> = if sq.len() == 3 { vec![&base, &one] } else { vec![&base] };
+        let a = run_reset(&alpha, &sq, &allowed)?.viol;
+        let b = run_reset(&alpha, &sq, &allowed)?.viol;
+        if a != b {
+            return Err("two replays of the same stream differ".into());
+        }
+        return Ok(a.map(|(s, w)| format!("{}: {}", s, w)));
+    }
     for (bytewise, fin) in [(false, false), (true, false), (false, true)] {
         let a = run_stream(&alpha, &sq, bytewise, None, fin)?.viol;
         let b = run_stream(&alpha, &sq, bytewise, None, fin)?.viol;
@@ -563,12 +680,29 @@ pub fn correlation_across_connections(_tier: Tier, threads: usize) -> (u64, Vec<
 }
 
 pub fn backpressure(tier: Tier) -> (u64, Vec<(String, String)>, Option<String>) {
+    let (mut n, mut out, err) = backpressure_gets(tier, &[op::GETK]);
+    if err.is_some() {
+        return (n, out, err);
+    }
+    let (n2, out2, err2) = late_reader();
+    n += n2;
+    out.extend(out2);
+    (n, out, err2)
+}
+
+/// Large items read back through a socket that is full: pipelined gets of one big item, nothing read
+/// until the server is blocked on the full socket; every response whole, in order, value exact.
+pub fn backpressure_gets(tier: Tier, opcodes: &[u8]) -> (u64, Vec<(String, String)>, Option<String>) {
     let mut out = vec![];
     let mut n = 0u64;
     let sizes: &[usize] = if tier == Tier::Quick { &[200_000, 1_000_000] } else { &[70_000, 200_000, 524_288, 1_000_000] };
     let counts: &[usize] = if tier == Tier::Quick { &[12] } else { &[4, 12, 24] };
+    for &opcode in opcodes {
     for &size in sizes {
         for &gets in counts {
+          // `stall`: the reader stays away for longer than the server's idle timeout while the
+          // server is blocked in the middle of a response, then reads everything
+          for stall in [false, true] {
             n += 1;
             let r = (|| -> Result<Option<String>, String> {
                 let w = net::NetWorld::new(NetCfg { item_limit: 1 << 20, ..Default::default() })?;
@@ -578,13 +712,16 @@ pub fn backpressure(tier: Tier) -> (u64, Vec<(String, String)>, Option<String>) 
                 c.got.clear();
                 let mut reqs = vec![];
                 for i in 0..gets {
-                    reqs.extend(Req::get(op::GETK, b"big").opaque(0x100 + i as u32).bytes());
+                    reqs.extend(Req::get(opcode, b"big").opaque(0x100 + i as u32).bytes());
                 }
                 reqs.extend(Req::bare(op::NOOP).opaque(0x999).bytes());
                 c.send(&w, &reqs)?;
                 // the server runs until it is blocked on the full socket; nothing is read meanwhile
                 w.settle();
                 w.settle();
+                if stall {
+                    w.advance(w.cfg.timeout_secs as u64 + 1);
+                }
                 // now drain
                 let mut idle = 0;
                 let mut last = 0usize;
@@ -609,8 +746,11 @@ pub fn backpressure(tier: Tier) -> (u64, Vec<(String, String)>, Option<String>) 
                     return Ok(Some(format!("{} responses for {} requests", resps.len(), gets + 1)));
                 }
                 for (i, r) in resps.iter().enumerate().take(gets) {
-                    if let Err(e) = wire::check_frame(op::GETK, 0x100 + i as u32, b"big", r) {
+                    if let Err(e) = wire::check_frame(opcode, 0x100 + i as u32, b"big", r) {
                         return Ok(Some(format!("response #{}: {}", i, e)));
+                    }
+                    if r.extras() != &0x0b16u32.to_be_bytes()[..] {
+                        return Ok(Some(format!("response #{}: flags {}, stored 00000b16", i, wire::hex(r.extras()))));
                     }
                     if r.value() != &value[..] {
                         let at = r.value().iter().zip(value.iter()).position(|(a, b)| a != b).unwrap_or(r.value().len().min(value.len()));
@@ -624,14 +764,29 @@ pub fn backpressure(tier: Tier) -> (u64, Vec<(String, String)>, Option<String>) 
             })();
             match r {
                 Ok(Some(what)) => out.push((
-                    "backpressure|get".to_string(),
-                    format!("{} pipelined getk of a {}-byte item, responses read only after the server blocked on the full socket: {}", gets, size, what),
+                    format!("backpressure{}|{}", if stall { "+stalled-reader" } else { "" }, wire::op_name(opcode)),
+                    format!(
+                        "{} pipelined {} of a {}-byte item, responses read only after the server blocked on the full socket{}: {}",
+                        gets,
+                        wire::op_name(opcode),
+                        size,
+                        if stall { " and the idle timeout has passed" } else { "" },
+                        what
+                    ),
                 )),
                 Ok(None) => {}
                 Err(e) => return (n, out, Some(e)),
             }
+          }
         }
     }
+    }
+    (n, out, None)
+}
+
+fn late_reader() -> (u64, Vec<(String, String)>, Option<String>) {
+    let mut out = vec![];
+    let mut n = 0u64;
     // a client that reads late while the server closes: pipelined gets, then quit (or the client's
     // FIN); the first read only after the server has run - every response must still arrive, whole,
     // followed by a clean end of stream
